@@ -105,9 +105,11 @@ def _formula_funcs(P):
     return c, out, table
 
 
-def _unrolled(P, f, ncoef):
+def _unrolled(P, f, ncoef, absent=()):
     """normal form of the value returned by a dispersion method with the
-    coefficient list of length ncoef; atoms c0..c{n-1}, w."""
+    coefficient list of length ncoef; atoms c0..c{n-1}, w.  A branch on
+    `c[k] != 0` / `c[k] == 0` is decided as 'present' unless k is listed in
+    `absent`."""
     sym = Sym()
     ev = Ev(sym=sym)
     ev.env['w'] = A('w')
@@ -130,6 +132,9 @@ def _unrolled(P, f, ncoef):
                         return None
                     vals.append(int(c_))
             return [C(i) for i in range(*vals)]
+        if isinstance(it, (ast.Tuple, ast.List)) and all(
+                const_of(x) is not None for x in it.elts):
+            return [C(int(const_of(x))) for x in it.elts]
         return None
     ev.iters = iters
 
@@ -137,6 +142,21 @@ def _unrolled(P, f, ncoef):
         s = unparse(test)
         if 'len(c)' in s:
             return None        # validation guard -> skipped (valid input)
+        if isinstance(test, ast.Compare) and len(test.ops) == 1 and \
+                isinstance(test.left, ast.Subscript) and \
+                unparse(test.left.value) == 'c' and \
+                const_of(test.comparators[0]) == 0 and \
+                isinstance(test.ops[0], (ast.Eq, ast.NotEq)):
+            try:
+                kv = e.ev(test.left.slice)
+            except Inconclusive:
+                return None
+            if not (isinstance(kv, Rat) and kv.is_const()):
+                return None
+            k = int(kv.n.constant() / kv.d.constant())
+            present = k not in absent
+            return present if isinstance(test.ops[0], ast.NotEq) \
+                else not present
         return None
     ev.choose = choose
 
@@ -241,6 +261,42 @@ def formula_law(ctx):
                     ok = sym.eq(n2, expr)
                 else:
                     ok = sym.eq((n2 - ONE) / (n2 + C(2)), expr)
+        if ok and num == 4:
+            # 12 catalogue files pad the absent second rational term with
+            # zeros; 0 * w**0 / (w**2 - 0**0) is 0/0 at w = 1 um, inside their
+            # range.  With c5 = 0 the value must not involve that term at all.
+            try:
+                val0, sym0 = _unrolled(P, f, n, absent=(5,))
+            except Inconclusive as e:
+                raise AnalysisError(f'{f.qual} outside fragment: {e}')
+            roots0 = [a for a in val0.atoms() if a in sym0.defs and
+                      sym0.defs[a][0] == 'sqrt'] if isinstance(val0, Rat) \
+                else []
+            ok0 = False
+            if len(roots0) == 1:
+                n20 = sym0.defs[roots0[0]][1]
+
+                def pw0(base, ex):
+                    return sym0.opaque('pow', (base, ex))
+                want0 = c[0] + c[1] * pw0(w, c[2]) / (w2 - pw0(c[3], c[4])) \
+                    + c[9] * pw0(w, c[10])
+                ok0 = sym0.eq(n20, want0)
+                if not ok0:
+                    # the term is still evaluated: substitute c5 = 0 and see
+                    # whether the pole factor survives in the denominator
+                    pass
+            if ok0:
+                res.ok('formula 4 with an absent second term (c5 = 0): the '
+                       'term is not evaluated, no 0/0 at w = 1 um')
+            else:
+                res.fail(ctx.finding(
+                    'FORMULA-LAW', f, f.node,
+                    'formula 4 evaluates its second rational term also when '
+                    'its coefficient is 0: the zero-padded exponents give '
+                    '0 * w**0 / (w**2 - 0**0), i.e. 0/0 at w = 1.0 um - NaN '
+                    '/ ZeroDivisionError for the 12 catalogue entries of '
+                    'that shape (YAG, LuAG, Lu2O3, ...), inside their range',
+                    construct='formula 4 absent term'))
         if ok:
             res.ok(f'{key} -> {f.name}: equals refractiveindex.info formula '
                    f'{num} ({n} coefficients)')
@@ -302,8 +358,7 @@ def formula_dispatch(ctx):
     multi = [fn for fn, ts in per_file.items()
              if sum(1 for t in ts if t.startswith('formula') or
                     t in ('tabulated n', 'tabulated nk')) > 1]
-    res.notes.append(f'{len(multi)} data files define more than one index '
-                     f'relation (rejected by _set_formula_type)')
+    multi_pending = multi
     # stored type is the dispatched key
     nfn = cls.methods['n']
     res.saw(nfn)
@@ -354,16 +409,31 @@ def formula_dispatch(ctx):
                 n.test.comparators[0].value in want:
             t = n.test.comparators[0].value
             got = {}
+            guarded = {}
             for s in n.body:
                 if isinstance(s, ast.Assign) and isinstance(s.targets[0],
                                                             ast.Attribute):
                     got[s.targets[0].attr] = unparse(s.value)
-            if got == want[t]:
+                if isinstance(s, ast.If) and not s.orelse and \
+                        unparse(s.test) == 'self._n_formula is None':
+                    # index columns only when no formula was registered
+                    for s2 in s.body:
+                        if isinstance(s2, ast.Assign) and isinstance(
+                                s2.targets[0], ast.Attribute):
+                            got[s2.targets[0].attr] = unparse(s2.value)
+                            guarded[s2.targets[0].attr] = True
+                        if '_set_formula_type' in unparse(s2):
+                            guarded['#register'] = True
+            k_unguarded = not any(a_.startswith('_k') for a_ in guarded)
+            if got == want[t] and k_unguarded:
                 res.ok(f'{t!r}: {got}')
             else:
                 res.fail(ctx.finding('FORMULA-DISPATCH', pf, n,
                                      f'{t!r} fills {got}, expected {want[t]}',
                                      construct=f'columns {t!r}'))
+            if t == 'tabulated nk':
+                nk_after_formula_ok = bool(guarded.get('#register')) and \
+                    guarded.get('_n') and guarded.get('_n_wavelength')
             sets_type = any('_set_formula_type' in unparse(s) for s in n.body)
             if (t != 'tabulated k') == sets_type:
                 res.ok(f'{t!r}: index relation registered = {sets_type}')
@@ -371,6 +441,26 @@ def formula_dispatch(ctx):
                 res.fail(ctx.finding('FORMULA-DISPATCH', pf, n,
                                      f'{t!r}: relation registration wrong',
                                      construct=f'register {t!r}'))
+    # files with more than one index source: 'formula k' followed by
+    # 'tabulated nk' is the refractiveindex.info way of shipping "formula for
+    # n, measured k"; it loads when the nk branch takes n from the table only
+    # if no formula is registered.  Any other combination is rejected by
+    # _set_formula_type.
+    nk_ok = locals().get('nk_after_formula_ok', False)
+    for fn in multi_pending:
+        ts = [t_ for t_ in per_file[fn] if t_.startswith('formula') or
+              t_ in ('tabulated n', 'tabulated nk')]
+        fine = len(ts) == 2 and ts[0].startswith('formula') and \
+            ts[1] == 'tabulated nk' and nk_ok
+        if fine:
+            res.ok(f'{fn}: {ts} loads (n from the formula, k from the table)')
+        else:
+            res.fail(ctx.finding(
+                'FORMULA-DISPATCH', pf, None,
+                f'catalogue file {fn} defines {ts}: the second block '
+                f'registers a second index relation and _set_formula_type '
+                f'raises, so the entry cannot be loaded at all',
+                construct=f'multiple relations {fn}'))
     # interpolation argument order
     for mn, xs, ys, arg in (('_tabulated_n', 'self._n_wavelength', 'self._n',
                              'w'),
@@ -510,6 +600,14 @@ def arity(ctx):
                             env2 = dict(env)
                             env2[s.target.id] = k
                             run(s.body, env2)
+                    elif isinstance(it, (ast.Tuple, ast.List)) and all(
+                            ival(x, env) is not None for x in it.elts):
+                        for x in it.elts:
+                            env2 = dict(env)
+                            env2[s.target.id] = ival(x, env)
+                            run(s.body, env2)
+                    else:
+                        raise AnalysisError(f'{f.qual}: loop {unparse(it)}')
                 elif isinstance(s, ast.If):
                     t = s.test
                     if isinstance(t, ast.Compare) and 'len(c)' in unparse(t.left):
@@ -525,8 +623,19 @@ def arity(ctx):
                         if cond and any(isinstance(b, ast.Raise) for b in s.body):
                             return 'raise'
                         run(s.body if cond else s.orelse, env)
+                    elif isinstance(t, ast.Compare) and isinstance(
+                            t.left, ast.Subscript) and \
+                            unparse(t.left.value) == 'c':
+                        # a branch on the value of a coefficient: the
+                        # coefficient is read, the term is used when it is
+                        # present in the data
+                        scan(t, env)
+                        run(s.body, env)
+                        run(s.orelse, env)
                     else:
                         raise AnalysisError(f'{f.qual}: branch {unparse(t)}')
+                elif isinstance(s, (ast.Continue, ast.Pass)):
+                    continue
                 elif isinstance(s, (ast.Return, ast.Assign, ast.AugAssign,
                                     ast.Expr)):
                     for fld in ('value', 'target'):
@@ -717,6 +826,16 @@ def elementwise(ctx):
                     isinstance(x, ast.Name) and x.id == w
                     for x in ast.walk(n.test)):
                 bad = n.test
+            # w ** (negative integer literal): Python numbers and float
+            # arrays give 1 / w**k, integer-typed numpy arrays and scalars
+            # raise "Integers to negative integer powers are not allowed"
+            if isinstance(n, ast.BinOp) and isinstance(n.op, ast.Pow) and \
+                    isinstance(n.left, ast.Name) and n.left.id == w and \
+                    isinstance(n.right, ast.UnaryOp) and \
+                    isinstance(n.right.op, ast.USub) and \
+                    isinstance(n.right.operand, ast.Constant) and \
+                    isinstance(n.right.operand.value, int):
+                bad = n
         if bad is None:
             res.ok(f'{f.name}: elementwise in {w}')
         else:
